@@ -129,9 +129,10 @@ fn collect_needles(w: &World, needles: &mut Needles) {
 }
 
 fn history(plan: &Plan, keyring: bool, big: u8, rep: &mut CaseReport) -> Result<(), Failure> {
-    let old_umask = unsafe { libc::umask(0) };
+    let m = set_umask(big.wrapping_add(plan.ops.len() as u8));
+    rep.classes.push(format!("umask-{m:03o}"));
     let r = history_inner(plan, keyring, big, rep);
-    unsafe { libc::umask(old_umask) };
+    unsafe { libc::umask(0o022) };
     r
 }
 
@@ -261,7 +262,7 @@ fn history_inner(plan: &Plan, keyring: bool, big: u8, rep: &mut CaseReport) -> R
             return Err(Failure::new("plaintext-in-a-database-file", e));
         }
     }
-    // permissions under umask 000
+    // permissions, whatever the umask
     for (m, p, _) in &paths {
         let mode = std::fs::metadata(p).map(|md| md.permissions().mode() & 0o777).unwrap_or(0);
         if mode != 0o600 {
@@ -320,11 +321,21 @@ fn populate(st: &MdkSqliteStorage) {
     }
 }
 
+/// The process umask for a case. Owner-only must hold under every umask, so it does not matter
+/// that the umask is process-wide and other workers change it at the same time: any mixture is
+/// covered by the same expectation (0600 / 0700).
+fn set_umask(sel: u8) -> u32 {
+    let m = [0o000, 0o027, 0o007, 0o037, 0o022, 0o077][sel as usize % 6];
+    unsafe { libc::umask(m) };
+    m
+}
+
 fn matrix(start: FileState, attempts: &[Ctor], nested: u8, shape: u8, rep: &mut CaseReport) -> Result<(), Failure> {
     ensure_mock_keyring();
-    let old_umask = unsafe { libc::umask(0) };
+    let m = set_umask(nested.wrapping_mul(7).wrapping_add(shape).wrapping_add(attempts.len() as u8));
+    rep.classes.push(format!("umask-{m:03o}"));
     let r = matrix_inner(start, attempts, nested, shape, rep);
-    unsafe { libc::umask(old_umask) };
+    unsafe { libc::umask(0o022) };
     r
 }
 
@@ -642,7 +653,7 @@ pub fn main(args: &Args) -> i32 {
     let spec = Spec {
         id: "C13",
         level: "exploration",
-        rule: "three generated case families. (1) histories (messages incl. 20-50 KB values, group-data changes, races and rollbacks) on SQLCipher storage opened with a caller key or through the (mock) keyring, under umask 000: the canaries read back through the API (message texts, group names/descriptions, relay URL, member public keys, MLS and Nostr group ids, exporter secrets of every epoch, image keys, the database key; raw, hex in both cases, base64) are searched in every -journal/-wal/-shm/temp file at every storage tick and in every file of the directory at rest; then pragmas, file mode 0600, one-bit-wrong key / no key refused without touching the file, right key yields the same fingerprint. (2) constructor x file-state matrix: {keyring A, keyring B, key 1, key 2, unencrypted} in generated order on one path starting {missing, empty, plain, encrypted with key 1, encrypted through keyring A}, optionally below 1-2 directories the library must create (0700): Ok/Err per model, refused opens leave file and keyring untouched, keyring entries are reused, the right credentials show the same dump. (3) 2..16 threads opening one new path through the keyring at once: no panic, one key, instances share rows, normal open afterwards. Non-trivial = every history / concurrent case, matrix cases with >= 2 attempts on an existing file; distinct = distinct cases".into(),
+        rule: "three generated case families. (1) histories (messages incl. 20-50 KB values, group-data changes, races and rollbacks) on SQLCipher storage opened with a caller key or through the (mock) keyring, under umasks 000 / 007 / 022 / 027 / 037 / 077: the canaries read back through the API (message texts, group names/descriptions, relay URL, member public keys, MLS and Nostr group ids, exporter secrets of every epoch, image keys, the database key; raw, hex in both cases, base64) are searched in every -journal/-wal/-shm/temp file at every storage tick and in every file of the directory at rest; then pragmas, file mode 0600, one-bit-wrong key / no key refused without touching the file, right key yields the same fingerprint. (2) constructor x file-state matrix: {keyring A, keyring B, key 1, key 2, unencrypted} in generated order on one path starting {missing, empty, plain, encrypted with key 1, encrypted through keyring A}, optionally below 1-2 directories the library must create (0700): Ok/Err per model, refused opens leave file and keyring untouched, keyring entries are reused, the right credentials show the same dump. (3) 2..16 threads opening one new path through the keyring at once: no panic, one key, instances share rows, normal open afterwards. Non-trivial = every history / concurrent case, matrix cases with >= 2 attempts on an existing file; distinct = distinct cases".into(),
         assumptions: vec![
             "the platform keyring is the in-process mock store of keyring-core".into(),
             "rollback journals of single autocommitted statements exist only during the statement: they are seen where a storage tick falls inside the explicit transactions, and at rest".into(),
